@@ -97,6 +97,10 @@ class World:
         """name: bytes typed after '@'"""
         self.ops.append(("webfinger", list(name)))
 
+    def user_input(self, text):
+        """text: the bytes typed after ':open '"""
+        self.ops.append(("userinput", list(text)))
+
     def webfinger_url(self, k, account):
         """the URL client.ResolveWebfinger requests for account@host(k) (Go's url.QueryEscape == quote_plus with nothing safe)"""
         import urllib.parse
@@ -134,6 +138,8 @@ class World:
                 toks += [0, o[1]]
             elif o[0] == "webfinger":
                 toks += [4, len(o[1])] + list(o[1])
+            elif o[0] == "userinput":
+                toks += [7, len(o[1])] + list(o[1])
             elif o[0] == "paging":
                 toks += [5, o[1], len(o[2])] + list(o[2])
             elif o[0] == "feed":
@@ -142,6 +148,7 @@ class World:
                 toks += [1] + jsongen.to_tokens(o[1]) + [o[2]]
         meta = {"universe": self.universe, "entries": [(self.universe[ui], resp.decode("latin-1"), fin) for ui, resp, fin in self.entries],
                 "modes": self.modes, "ops": [list(o[:1]) + [json.dumps(jsonable(x)) if not isinstance(x, int) else x for x in o[1:]] for o in self.ops]}
+        meta["ops"] = [o if o[0] != "userinput" else ["userinput", bytes(json.loads(o[1])).decode("latin-1")] for o in meta["ops"]]
         meta["ops"] = [o if o[0] != "webfinger" else ["webfinger", bytes(json.loads(o[1])).decode("latin-1")] for o in meta["ops"]]
         meta.update(self.meta)
         if extra_meta:
